@@ -140,6 +140,8 @@ async def scenario(loop, rnd, w, spec, stats):
                 elif st[0] == 'prune':
                     w.events.append('script: prune_inactive_connections(%s)' % st[1]); await pool.prune_inactive_connections(st[1])
                 elif st[0] == 'sleep': await asyncio.sleep(st[1])
+                elif st[0] == 'bgprune':      # the prune runs concurrently with what follows (its disconnects are in flight)
+                    w.events.append('script: prune_inactive_connections(%s) in the background' % st[1]); ptasks.append(loop.create_task(pool.prune_inactive_connections(st[1])))
                 elif st[0] == 'bg': bg[st[1]] = loop.create_task(acq(st[1], st[2]))
                 elif st[0] == 'wait':
                     if len(st) > 2:      # ('wait', key, deadline): the background request must have been served `deadline` virtual seconds from now
@@ -206,8 +208,15 @@ def run_one(seed, spec=None):
     def on_loop_exception(lp, context):
         exc = context.get('exception'); cb = str(context.get('handle') or context.get('future') or '')
         if isinstance(exc, (ConnectFailed, DisconnectFailed, asyncio.CancelledError)) or exc is None: return
-        if not errors_seen: errors_seen.append('%r in %s' % (exc, cb[:120]))
-    errors_seen = []
+        # where it was raised (innermost frame of the pool module): recorded findings are identified by the exact statement that fails
+        import traceback as _tb, linecache as _lc
+        fr = [f for f in _tb.extract_tb(exc.__traceback__) if f.filename.endswith('connpool/pool.py')]
+        site = (fr[-1].name, (fr[-1].line or '').strip()) if fr else ('?', '?')
+        for kid, (fn_, stmt_) in KNOWN_SITES.items():
+            if isinstance(exc, AssertionError) and site == (fn_, stmt_):
+                known_hits.setdefault(kid, '%r in %s' % (exc, cb[:80])); return
+        if not errors_seen: errors_seen.append('%r in %s (raised at %s: `%s`)' % (exc, cb[:120], site[0], site[1]))
+    errors_seen = []; known_hits = {}
     loop.set_exception_handler(on_loop_exception)
     w = World(rnd, spec['maxcap'], spec['fail_rate'], spec['slow']); w.disc_fail_rate = spec.get('disc_fail_rate', 0.0); stats = dict(started=0, served=0, reported_failure=0)
     try:
@@ -222,7 +231,12 @@ def run_one(seed, spec=None):
         loop.close()
     if errors_seen and not w.failure:
         w.fail('C16 liveness', 'a maintenance callback of the pool died while requests were queued (they were served only later, if at all): %s' % errors_seen[0])
+    w.known_hits = known_hits
     return w, stats, spec
+
+# failures of the pool that are recorded as open findings in /verif/known_findings.json, identified by the statement that raises (function, source text);
+# a scenario that only hits one of these is reported under `known`, not as a failure -- anything else still is
+KNOWN_SITES = {'C16-KF1-tick-mode-c-assert': ('_tick', 'assert capacity_left > 0')}
 
 # fixed patterns known to be delicate (pending connects when the tick fires; more databases than connections; discards under pressure)
 def patterns():
@@ -260,15 +274,26 @@ def patterns2():
                script=[('acq', 'x1', 'X'), ('acq', 'y1', 'Y'), ('bg', 'w', 'X'), ('sleep', 0), ('sleep', 0), ('sleep', 0), ('rel', 'x1'), ('prune', 'X'), ('sleep', 0.01), ('rel', 'y1'), ('wait', 'w', 3.0)],
                slow=[0.001], fail_rate=0.0, gc=120.0, horizon=600.0)
 
+def patterns3():
+    # ONE database: its idle connections are being closed (slow disconnect) when a burst of requests arrives -- neither more connections than the maximum (those being
+    # closed still count) nor a request left waiting once the closes are done
+    for maxcap in (1, 2, 3):
+        names = ['k%d' % i for i in range(maxcap)]
+        yield dict(maxcap=maxcap, clients=[], script=[('acq', k, 'X') for k in names] + [('rel', k) for k in names] + [('sleep', 0.05), ('bgprune', 'X'), ('sleep', 0.001)] +
+                   [('bg', 'w%d' % i, 'X') for i in range(maxcap + 1)] + [('wait', 'w%d' % i, 3.0) for i in range(maxcap + 1)], slow=[0.02], fail_rate=0.0, gc=120.0, horizon=600.0)
+    # a retryable connect failure while the pool is full and another request is waiting
+    yield dict(maxcap=2, clients=[(0.0, 'A', 0.05, False), (0.0, 'A', 0.05, False), (0.001, 'B', 0.01, False), (0.002, 'A', 0.01, False), (0.003, 'B', 0.01, False)], slow=[0.001, 0.02], fail_rate=0.5, gc=120.0, horizon=600.0)
+
 def main():
     seed, n, out = int(sys.argv[1]), int(sys.argv[2]), sys.argv[3]
-    res = dict(scenarios=0, clients=0, served=0, reported_failures=0, failure_C15=None, failure_C16=None)
+    res = dict(scenarios=0, clients=0, served=0, reported_failures=0, failure_C15=None, failure_C16=None, known={})
     def account(w, stats, spec, label):
         res['scenarios'] += 1; res['clients'] += stats['started']; res['served'] += stats['served']; res['reported_failures'] += stats['reported_failure']
+        for kid, what in getattr(w, 'known_hits', {}).items(): res['known'].setdefault(kid, dict(scenario=label, what=what, spec=spec))
         if w.failure:
             key = 'failure_C16' if w.failure['kind'].startswith('C16') else 'failure_C15'      # crashes of pool tasks count against C15 (accounting)
             if not res[key]: res[key] = dict(w.failure, scenario=label, spec=spec)
-    for k, spec in enumerate(list(patterns()) + list(patterns2())):
+    for k, spec in enumerate(list(patterns()) + list(patterns2()) + list(patterns3())):
         w, stats, spec = run_one(seed * 1000 + k, spec); account(w, stats, spec, 'pattern %d' % k)
     k = 0
     while not (res['failure_C15'] and res['failure_C16']) and k < n:
